@@ -116,7 +116,7 @@ def tasks_C05(tier, seed):
 def tasks_C06(tier, seed):
     rnd = random.Random(seed)
     tasks = []
-    for e in corpus_T(AUX_ONLY + ["regression"]) + corpus_G("C06") + corpus_G_all(tier, seed, 3, skip=("C09", "C15", "C05")):
+    for e in corpus_T(AUX_ONLY + ["regression"]) + corpus_G("C06") + [e for e in corpus_G("C01") if e.get("V") != "show"] + corpus_G("C16") + corpus_G_all(tier, seed, 3, skip=("C09", "C15", "C05", "C16")):
         cfgs = [AUX_ONLY]
         tr = e.get("trait") or FAM_TRAIT.get(e["id"].split("-")[1])
         if tr in AUX_ONLY:
